@@ -1386,6 +1386,12 @@ long heap_live_with_tag(int tag) {
     if (g_blocks[i]->state == SH_LIVE && g_blocks[i]->tag == tag) n++;
   return n;
 }
+void heap_note_live(int tag) {
+  for (int i = 0; i < g_nblocks; i++)
+    if (g_blocks[i]->state == SH_LIVE && g_blocks[i]->tag == tag)
+      note("live block %p size %lu allocated by T%d pc=%p", (void*)((uintptr_t)g_blocks[i] + sizeof(BlockHdr)), (unsigned long)g_blocks[i]->size,
+           g_blocks[i]->alloc_tid, g_blocks[i]->alloc_pc);
+}
 bool heap_is_live(const void* p) {
   uintptr_t a = (uintptr_t)p;
   return in_arena(a) && *shadow_of(a) == SH_LIVE;
